@@ -7,10 +7,12 @@
 (* model that explains it (limit:..., dispatch:...), or "roundtrip"/... when the model has none.       *)
 (* D-conjuncts (DRIFT only): the model's predicted outcome differs from the observed one although the  *)
 (* property holds, and outcomes for selectors outside the supported set.                               *)
-EXTENDS Codec, Json, IOUtils, TLCExt
+EXTENDS Codec, CodecHist, Json, IOUtils, TLCExt
 
 Rec == ndJsonDeserialize(IOEnv.TRACE)
-VARIABLE tl
+VARIABLES tl,
+          tbase,    \* call histories: unit -> the observation of its first round trip in this trace (the reference)
+          tshadow   \* call histories: CodecHist's object map under the negative-control scope "thread" (names the deviation)
 
 LaneLaw(e) ==
   /\ e.swL = e.outR /\ e.swR = e.outL            \* swapping the input lanes swaps the output lanes
@@ -71,19 +73,59 @@ HistVerdict(e) == IF e.first[1] # "ok" THEN "history-first-call-failed"
                   ELSE IF e.firstdiff # -1 \/ e.last # e.first THEN "history-dependent"
                   ELSE "ok"
 
-Init == tl = 1 /\ CInitWith({0}, {0}, TOne)
+---------------------------------------------------------------------------
+(* Call histories (CodecHist).  A `Call` event is one op of a history: the trace steps CodecHist's machine (HGood /     *)
+(* HBad / HBadC under the code's scope "call", in which the model's result class of a round trip is the one Codec.tla   *)
+(* gives for a first call).  P-conjuncts for a round trip (op = good): (i) CallIndependent -- the observation equals    *)
+(* the reference observation of the same unit earlier in the trace; (ii) the RT verdict above, for every call.  A       *)
+(* rejection by (i) is named after the scope of CodecHist that explains it.  Damaged / refused calls (bad, badc) carry  *)
+(* no obligation (the property is silent on them); they only advance the machine.                                      *)
+CallUnit(e) == <<e.m, e.len, e.cls>>
+CallObs(e)  == <<e.cres, e.outLen, e.raw, e.first, e.dres, e.dlen, e.dtok, e.sres, e.stok>>
+ShadowBad(hd, e) == IF e.op = "bad" THEN HAfterBad("thread", hd, e.thr, e.m, e.dmg)
+                    ELSE IF e.op = "badc" THEN HAfterBadC("thread", hd, e.thr, e.m) ELSE hd
+\* which carried state would explain a round trip that differs from its reference?
+Explains(hd, e) ==
+  IF \E o \in HUses(e.m) : hd[e.thr][o] # "fresh" THEN "state-kept-by-the-thread-after-a-failed-call"
+  ELSE IF \E t \in HThreads : \E o \in HUses(e.m) : hd[t][o] # "fresh" THEN "state-kept-by-the-process-after-a-failed-call"
+  ELSE "no-failed-call-through-a-shared-stage"
+CallVerdict(e) ==
+  IF e.thr \notin HThreads \/ e.op \notin {"good", "bad", "badc"} THEN "malformed-call"
+  ELSE IF e.op # "good" THEN "ok"
+  ELSE IF CallUnit(e) \in DOMAIN tbase /\ tbase[CallUnit(e)] # CallObs(e) THEN "history-dependent:" \o Explains(tshadow, e)
+  ELSE Verdict(e)
+TCall(e) ==
+  /\ IF e.op = "good" THEN HGood(e.thr, e.m)
+     ELSE IF e.op = "bad" /\ e.dmg \in HDamage THEN HBad(e.thr, e.m, e.dmg)
+     ELSE IF e.op = "badc" /\ ~AdpcmAligned(e.m, e.len) THEN HBadC(e.thr, e.m)
+     ELSE UNCHANGED hvars
+  /\ tshadow' = ShadowBad(tshadow, e)
+  /\ tbase' = IF e.op = "good" /\ CallUnit(e) \notin DOMAIN tbase THEN tbase @@ (CallUnit(e) :> CallObs(e)) ELSE tbase
+  /\ (IF CallVerdict(e) = "ok" THEN TRUE ELSE PrintT(<<"BAD", tl, CallVerdict(e)>>))
+  \* the model's result class for the round trip (scope "call") against the observed one: DRIFT only (Verdict decides)
+  /\ (IF e.op = "good" /\ e.cres = "ok" /\ ~e.raw /\ Supported(e.m) /\ PreCheck(e.m, e.outLen - 1, e.len) = "ok"
+         /\ (hlast'.res = "ok") # RoundTripOk(e) /\ CallVerdict(e) = "ok"
+      THEN PrintT(<<"DRIFT", tl, "call-result-class-differs-from-model">>) ELSE TRUE)
+
+TOther(e) ==
+  IF e.ev = "Hang" THEN PrintT(<<"BAD", tl, "hang">>)        \* a codec call did not return (watchdog)
+  ELSE IF e.ev = "Abort" THEN PrintT(<<"BAD", tl, "abort">>)      \* the process running the case died
+  \* the code did not return from / died in a call on DAMAGED input: outside this property (the rest of the history is lost)
+  ELSE IF e.ev \in {"HangDamaged", "AbortDamaged"} THEN PrintT(<<"DRIFT", tl, "damaged-input-" \o e.ev>>)
+  ELSE IF e.ev = "Hist" THEN (IF HistVerdict(e) = "ok" THEN TRUE ELSE PrintT(<<"BAD", tl, HistVerdict(e)>>))
+  ELSE IF e.ev # "RT" THEN PrintT(<<"BAD", tl, "unknown-event">>)
+  ELSE LET v == Verdict(e) IN
+       /\ (IF v = "ok" THEN TRUE ELSE PrintT(<<"BAD", tl, v>>))
+       /\ (IF Drift(e) = "none" THEN TRUE ELSE PrintT(<<"DRIFT", tl, Drift(e)>>))
+
+Init == tl = 1 /\ CInitWith({0}, {0}, TOne) /\ HInit /\ tbase = <<>> /\ tshadow = HFreshAll
 Next == /\ tl <= Len(Rec)
         /\ tl' = tl + 1
         /\ UNCHANGED cvars
         /\ LET e == Rec[tl] IN
-           IF e.ev = "Reset" THEN TRUE
-           ELSE IF e.ev = "Hang" THEN PrintT(<<"BAD", tl, "hang">>)        \* a codec call did not return (watchdog)
-           ELSE IF e.ev = "Abort" THEN PrintT(<<"BAD", tl, "abort">>)      \* the process running the case died
-           ELSE IF e.ev = "Hist" THEN (IF HistVerdict(e) = "ok" THEN TRUE ELSE PrintT(<<"BAD", tl, HistVerdict(e)>>))
-           ELSE IF e.ev # "RT" THEN PrintT(<<"BAD", tl, "unknown-event">>)
-           ELSE LET v == Verdict(e) IN
-                /\ (IF v = "ok" THEN TRUE ELSE PrintT(<<"BAD", tl, v>>))
-                /\ (IF Drift(e) = "none" THEN TRUE ELSE PrintT(<<"DRIFT", tl, Drift(e)>>))
+           IF e.ev = "Call" THEN TCall(e)
+           ELSE IF e.ev = "Reset" THEN hobj' = HFreshAll /\ hcnt' = 0 /\ hlast' = HNoCall /\ tbase' = <<>> /\ tshadow' = HFreshAll
+           ELSE UNCHANGED <<hvars, tbase, tshadow>> /\ TOther(e)
 
 Accepted == LET d == TLCGet("stats").diameter IN
             IF d - 1 = Len(Rec) THEN PrintT(<<"CONSUMED", Len(Rec)>>) ELSE Print(<<"TRACE_STUCK_AT", d>>, FALSE)
